@@ -33,9 +33,54 @@ type FnResult struct {
 // verifyFn generates the obligations of one function against its contract (if any).
 // post is called after symbolic execution, before ensures are turned into obligations (property drivers add their own).
 func (e *Engine) verifyFn(fn *ssa.Function, opts *VCOpts, post func(fr *Frame, q *Query)) *FnResult {
+	drop := map[string]bool{}
+	for round := 0; round < 6; round++ {
+		r := e.verifyFnOnce(fn, opts, post, drop)
+		// Houdini: keep only the auto-candidate loop invariants that are inductive together
+		var autos []*Obligation
+		for _, o := range r.Obls {
+			if strings.HasPrefix(o.Tag, "auto:") {
+				autos = append(autos, o)
+			}
+		}
+		if len(autos) == 0 {
+			return r
+		}
+		sub := &FnResult{Fn: r.Fn, Obls: autos, query: r.query, frame: r.frame, Background: r.Background}
+		initSem(16)
+		dischargeFn(sub, Tier{Name: "houdini", BatchMS: 2000, SingleS: 1, Parallel: 16, Skip: func(*Obligation) bool { return false }, NoModels: true, BatchOnly: true})
+		changed := false
+		for _, o := range autos {
+			if o.Answer != "unsat" {
+				k := strings.TrimPrefix(o.Tag, "auto:")
+				if !drop[k] {
+					drop[k] = true
+					changed = true
+				}
+			}
+			o.Answer, o.Solver = "", ""
+		}
+		if !changed {
+			return r
+		}
+	}
+	return e.verifyFnOnce(fn, opts, post, drop)
+}
+
+func (e *Engine) verifyFnOnce(fn *ssa.Function, opts *VCOpts, post func(fr *Frame, q *Query), drop map[string]bool) *FnResult {
+	// VC generation shares the engine's tables: one generator at a time (it takes milliseconds); solving runs outside
+	genMu.Lock()
+	genLocked = true
+	defer func() {
+		if genLocked {
+			genLocked = false
+			genMu.Unlock()
+		}
+	}()
 	e.computeModSets()
 	q := newQuery(e, opts)
 	fr := newFrame(q, fn, nil)
+	fr.autoDrop = drop
 	ct := e.contractFor(fn, opts)
 	fr.contract = ct
 	res := &FnResult{Fn: fnKey(fn), HasContract: ct != nil && !ct.Auto, frame: fr, query: q}
@@ -62,13 +107,12 @@ func (e *Engine) verifyFn(fn *ssa.Function, opts *VCOpts, post func(fr *Frame, q
 	if fn.Signature.Recv() != nil && len(args) > 0 {
 		if _, ok := underlying(fn.Params[0].Type()).(*ptrT); ok {
 			q.assume("true", "(not (= "+args[0].C[0]+" 0))")
+			fr.nonNilParams[fn.Params[0]] = true
 		}
 	}
 	if ct != nil {
 		env := newSpecEnv(fr, fn)
-		for i, p := range fn.Params {
-			env.names[p.Name()] = SV{T: p.Type(), V: args[i]}
-		}
+		env.bindParams(fn, args)
 		env.st = st
 		env.old = st
 		fr.params = args
@@ -89,9 +133,7 @@ func (e *Engine) verifyFn(fn *ssa.Function, opts *VCOpts, post func(fr *Frame, q
 	if ct != nil {
 		for _, r := range fr.rets {
 			env := newSpecEnv(fr, fn)
-			for i, p := range fn.Params {
-				env.names[p.Name()] = SV{T: p.Type(), V: args[i]}
-			}
+			env.bindParams(fn, args)
 			env.st = r.st
 			env.old = fr.entry
 			var all Val
@@ -193,6 +235,8 @@ type Tier struct {
 	CrossCheck  bool
 	Seed        int
 	Parallel    int
+	NoModels    bool
+	BatchOnly   bool
 	Skip        func(o *Obligation) bool // obligations for which the expensive one-shot/model stage is not wanted
 }
 
@@ -419,6 +463,9 @@ func dischargeFn(r *FnResult, tier Tier) {
 			left = append(left, i)
 		}
 	}
+	if tier.BatchOnly {
+		return
+	}
 	// leftovers: race individually in one-shot mode (stronger tactics) and fetch a model
 	var wg sync.WaitGroup
 	for _, i := range left {
@@ -447,7 +494,7 @@ func dischargeFn(r *FnResult, tier Tier) {
 					o.Solver = sr.Solver
 				}
 			}
-			if o.Answer != "unsat" && o.Model == "" {
+			if o.Answer != "unsat" && o.Model == "" && !tier.NoModels {
 				// candidate counter-model from the quantifier-free weakening (to be replayed, never trusted)
 				lq := r.query.backgroundLite(o.AssertIdx) + "(assert " + o.Guard + ")\n(assert (not " + o.Cond + "))\n(check-sat)\n(get-model)\n"
 				solverSem <- struct{}{}
@@ -470,12 +517,27 @@ func coverCheck(r *FnResult, tier Tier) {
 		return
 	}
 	initSem(tier.Parallel)
+	// canary reading: the guard fails only when the normal exit is provably unreachable (vacuous context).
+	// Functions with written contracts are checked against the full background, the others against its
+	// quantifier-free part (cheap; a contradiction among ground facts is what a bad callee contract produces).
+	bg := r.query.backgroundLite(-1)
+	to := 3
+	if r.HasContract {
+		bg = r.Background
+		to = 5
+	}
+	fileMu.Lock()
+	fileCounter++
+	n := fileCounter
+	fileMu.Unlock()
+	f := filepath.Join(scratch(), fmt.Sprintf("c%d.smt2", n))
+	os.WriteFile(f, []byte(bg+"(assert "+r.RetReach+")\n(check-sat)\n"), 0o644)
+	defer os.Remove(f)
 	solverSem <- struct{}{}
-	sr := solve(r.Background+"(assert "+r.RetReach+")\n(check-sat)\n", tier.SingleS, tier.Seed, false)
+	ans, _, _ := runOne(context.Background(), solvers[0], f, to, tier.Seed)
 	<-solverSem
-	r.CoverAnswer = sr.Answer
-	// canary reading: the guard fails only when the normal exit is provably unreachable (vacuous context)
-	r.CoverOK = sr.Answer != "unsat"
+	r.CoverAnswer = ans
+	r.CoverOK = ans != "unsat"
 }
 
 func summarize(results []*FnResult) (total, discharged int, byKind map[string][2]int) {
